@@ -1,4 +1,5 @@
 import Mp4ff.Model.Segmenter
+import Mp4ff.Model.Combine
 import Mp4ff.Driver.C09
 namespace Mp4ff.Driver.C11
 open Mp4ff Mp4ff.Stbl Mp4ff.Segmenter Mp4ff.Driver
@@ -15,8 +16,23 @@ def sttsOf (s : String) : Option Stts := do
   let st ← C09.pairs s
   some ⟨st.map fun p => (p.getD 0 0).toNat, st.map fun p => (p.getD 1 0).toNat⟩
 
+/-- run "<data_offset|->:<size>,<size>,..." -/
+def parseRun (s : String) : Option Frag.RunLoc :=
+  match s.splitOn ":" with
+  | [off, sz] => do
+      let sizes ← natList sz
+      let d ← if off = "-" then some none else (off.toInt?).map some
+      some ⟨d, sizes⟩
+  | _ => none
+
 def dispatch (op : String) (args : List String) : Option String :=
   match op, args.filter (fun a => !a.startsWith "H=") with
+  -- seg.pos <moofStart> <base_data_offset|-> <default-base-is-moof 0|1> <run> ... -> position of every sample
+  | "seg.pos", ms :: bdo :: dbm :: runs => do
+      let ms ← ms.toNat?
+      let b ← if bdo = "-" then some none else (bdo.toNat?).map some
+      let rs ← runs.mapM parseRun
+      pure (showInts (Frag.samplePositions ⟨b, dbm == "1"⟩ ms rs))
   | "seg.reseg", [cd, t0, ss] => do
       let samples ← parseSamples ss 0
       pure (sizes (resegment (← cd.toNat?) (← t0.toNat?) samples))
